@@ -29,13 +29,16 @@ def _make_parent(interp, selfv, args, kwargs):
 
 
 def gene_interp(repo, **kw):
+    opaque = kw.pop("opaque_digest", False)
     it = loc_interp(repo, **kw)
+    kw["opaque_digest"] = opaque
     it.hooks["Seq"] = _seq
     it.hooks["make_parent"] = _make_parent
     it.hooks["parent:make_parent"] = _make_parent
     it.hooks["inscripta.biocantor.parent.make_parent"] = _make_parent
-    it.hooks["util.hashing:digest_object"] = _digest
-    it.hooks["digest_object"] = _digest
+    if kw.pop("opaque_digest", False):
+        it.hooks["util.hashing:digest_object"] = _digest
+        it.hooks["digest_object"] = _digest
     return it
 
 
